@@ -675,7 +675,8 @@ def _replay_shim_case(npars, fixed, do_stitch):
         if list(kwargs["x0"]) != init or kwargs["fixed_vals"] != fixed_vals:
             bad["minimizer_kwargs"] = repr(kwargs)
     # what the backend shim receives: the pieces must pair index k with value k, exactly the caller's pairs
-    import pyhf.optimize.common as common
+    import sys
+    common = sys.modules["pyhf.optimize.common"]          # `import pyhf.optimize.common as x` goes through pyhf.optimize's lazy attribute hook
     seen = {}
     saved = common._get_tensor_shim
 
